@@ -257,3 +257,104 @@ add("D8", "break", NB, "_group_func_wrap", "        values = values[mask]\n     
 add("D8", "break", NB, "_apply_group_method_single_chunk", "        if len(mask) != len(group_key):\n            raise ValueError('Mask must have the same length as group_key')\n", "", name="D8 boolean mask length check removed")
 add("D8", "break", NB, "_apply_group_method_single_chunk", "        indexer = mask\n        check_in_bounds = True\n", "        indexer = mask\n        check_in_bounds = False\n", name="D8 bounds check disabled for positional masks")
 add("D8", "break", NB, "_group_by_reduce", "            if check_in_bounds and i >= n_rows:\n                raise ValueError(f'Indexer {i} is out of bounds for array of length {n_rows}')\n", "", name="D8 bounds check deleted in the kernel")
+
+# --------------------------------------------------------------------------------------------- M1..M5, D9
+ACROSS = "GroupBy._apply_gb_func_across_chunked_group_keys"
+MERGE_CORE = "numba_funcs.reduce_array_pair(combined[pointer], result, reducer=reducer, counts=count[pointer], y_counts=counts_one_value[j][:-1])"
+add("M1", "break", CORE, ACROSS, MERGE_CORE, "numba_funcs.reduce_array_pair(combined[pointer], result, reducer=reducer)", name="M1 chunked merge without counts")
+add("M1", "break", CORE, ACROSS, MERGE_CORE, "numba_funcs.reduce_array_pair(combined[pointer], result, reducer=reducer, counts=counts_one_value[j][:-1], y_counts=counts_one_value[j][:-1])", name="M1 chunked merge given the partial's own count")
+add("M1", "break", NB, "combine_chunk_results_for_factorized_key", "counts=combined_count if counts_tracked else None, y_counts=count if counts_tracked else None", "counts=None, y_counts=count if counts_tracked else None", name="M1 thread merge never passes the accumulated count")
+add("M1", "break", NB, "reduce_array_pair", "            count = counts[i]\n", "            count = 1\n", name="M1 merge kernel ignores the accumulated count")
+add("M1", "break", NB, "reduce_array_pair", "        if y_counts is not None and y_counts[i] == 0:\n            continue\n", "", name="M1 merge kernel does not skip empty partials")
+add("M1", "break", NB, "_group_func_wrap", "result, count = combine_chunk_results_for_factorized_key('sum' if counting or 'sum' in reduce_func_name else reduce_func_name, chunks, counts)", "result, count = combine_chunk_results_for_factorized_key('sum' if counting or 'sum' in reduce_func_name else reduce_func_name, chunks)", name="M1 thread merge site does not hand over the counts", expect_func="*")
+add("M1", "keep", CORE, ACROSS, MERGE_CORE, "numba_funcs.reduce_array_pair(combined[pointer], result, reducer, count[pointer], counts_one_value[j][:-1])", name="M1 counts passed positionally")
+add("M2", "break", CORE, ACROSS, "                combined[pointer] = " + MERGE_CORE + "\n                count[pointer] += counts_one_value[j][:-1]\n",
+    "                count[pointer] += counts_one_value[j][:-1]\n                combined[pointer] = " + MERGE_CORE + "\n", name="M2 count accumulated before the merge that reads it")
+add("M2", "break", CORE, ACROSS, "                count[pointer] += counts_one_value[j][:-1]\n", "", name="M2 accumulated count never updated", expect_func="*")
+add("M2", "break", NB, "combine_chunk_results_for_factorized_key", "        combined_count = combined_count + count\n", "", name="M2 thread merge never accumulates the count", expect_func="*")
+add("M3", "break", UTIL, "parallel_map", "                results[index] = future.result()\n", "                results.append(future.result())\n", name="M3 results appended in completion order")
+add("M3", "break", UTIL, "parallel_map", "            index = future_to_index[future]\n", "            index = len(future_to_index) - 1 - future_to_index[future]\n", name="M3 placement index not the submission index")
+add("M3", "keep", UTIL, "parallel_map", "        future_to_index = {executor.submit(func, *args): i for i, args in enumerate(arg_list)}\n        results = [None] * len(arg_list)\n        for future in concurrent.futures.as_completed(future_to_index):\n            index = future_to_index[future]\n            try:\n                results[index] = future.result()\n            except Exception as exc:\n                print(f'Item at index {index} generated an exception: {exc}')\n                raise\n",
+    "        futures = [executor.submit(func, *args) for args in arg_list]\n        results = [f.result() for f in futures]\n", name="M3 futures consumed in submission order")
+add("M4", "break", NB, "_chunk_args_for_unchunked_values", "value_list = np.array_split(values, n_chunks)", "value_list = np.array_split(values, n_chunks + 1)", name="M4 values split by a different splitter")
+add("M4", "break", NB, "_chunk_args_for_chunked_values", "np.array_split(mask, splits)", "np.array_split(mask, len(splits) + 1)", name="M4 mask split evenly instead of at the value chunk boundaries")
+add("M4", "keep", NB, "_chunk_args_for_unchunked_values", "    key_list = np.array_split(group_key, n_chunks)\n    value_list = np.array_split(values, n_chunks)\n", "    n = n_chunks\n    key_list = np.array_split(group_key, n)\n    value_list = np.array_split(values, n)\n", name="M4 split count hoisted into a local")
+add("M5", "break", CORE, ACROSS, "pointer = self._group_key_pointers[first_chunk_in + j]", "pointer = self._group_key_pointers[j]", name="M5 merge pointer not offset by the first chunk")
+add("M5", "break", CORE, ACROSS, "self._group_key_pointers[first_chunk_in + i] if self._group_key_pointers is not None else self.result_index", "self._group_key_pointers[i] if self._group_key_pointers is not None else self.result_index", name="M5 ngroups pointer not offset")
+add("M5", "break", CORE, "GroupBy.count_ikey", "pointer = self._group_key_pointers[first_chunk_in + i]", "pointer = self._group_key_pointers[i]", name="M5 count_ikey pointer not offset")
+add("M5", "keep", CORE, "GroupBy.count_ikey", "pointer = self._group_key_pointers[first_chunk_in + i]", "pointer = self._group_key_pointers[i + first_chunk_in]", name="M5 offset operands commuted")
+add("D9", "break", NB, "_chunk_groupby_args", "            mask = mask.nonzero()[0]\n", "            mask = np.sort(mask.nonzero()[0])[::-1]\n", name="D9 positions reversed before splitting")
+
+# --------------------------------------------------------------------------------------------- S1..S4
+UNIFY = "GroupBy._unify_group_key_chunks"
+add("S1", "break", CORE, UNIFY, "            self._group_key_pointers = None\n", "", name="S1 pointer tables kept after they were applied (applied twice on the next call)")
+add("S1", "break", CORE, UNIFY, "        elif keep_chunked:\n            return\n        else:\n            chunks = self._group_ikey.chunks\n", "        elif keep_chunked:\n            return\n", name="S1 chunks unbound from the chunked-global state")
+add("S1", "break", CORE, UNIFY, "        if keep_chunked:\n            self._group_ikey = pa.chunked_array(chunks)\n        else:\n            self._group_ikey = np.concatenate(chunks)", "        self._group_ikey = pa.chunked_array(chunks)", name="S1 keep_chunked=False leaves the key chunked")
+add("S1", "break", CORE, UNIFY, "            chunks = [np.append(p, -1)[k] for p, k in zip(self._group_key_pointers, self._group_ikey.chunks)]\n            self._group_key_pointers = None\n",
+    "            self._group_key_pointers = None\n            chunks = [np.append(p, -1)[k] for p, k in zip(self._group_key_pointers, self._group_ikey.chunks)]\n", name="S1 pointers reset before they are applied")
+add("S1", "keep", CORE, UNIFY, "        if not self.key_is_chunked:\n            return\n", "        if not isinstance(self._group_ikey, pa.ChunkedArray):\n            return\n", name="S1 chunkedness test written out")
+add("S2", "break", CORE, "GroupBy.head", "        if self.key_is_chunked:\n            print('Unifying chunked group-key before finding head')\n            self._unify_group_key_chunks()\n", "", name="S2 head reads chunk-local codes")
+add("S2", "break", CORE, "GroupBy.nth", "            self._unify_group_key_chunks()\n", "            pass\n", name="S2 nth reads chunk-local codes")
+add("S2", "break", CORE, "GroupBy._apply_gb_reduction", "            self._unify_group_key_chunks()\n", "", expect_func="*", name="S2 transform indexes with chunk-local codes")
+add("S2", "break", CORE, "GroupBy._apply_rolling_or_cumulative_func", "            self._unify_group_key_chunks()\n", "            pass\n", expect_func="*", name="S2 rolling/cumulative kernels get chunk-local codes")
+add("S2", "break", CORE, "GroupBy.ema", "        if self.key_is_chunked:\n            self._unify_group_key_chunks()\n", "", name="S2 ema reads chunk-local codes")
+add("S2", "break", CORE, "GroupBy.group_nearby_members", "        if self.key_is_chunked:\n            self._unify_group_key_chunks()\n", "", name="S2 group_nearby_members reads chunk-local codes")
+add("S2", "break", CORE, "GroupBy._group_sort_indexer", "        self._unify_group_key_chunks(keep_chunked=True)\n", "", name="S2 group-sorted indexer built from chunk-local codes")
+add("S2", "keep", CORE, "GroupBy.apply", "                self._unify_group_key_chunks(keep_chunked=False)\n", "", name="S2 apply(transform): codes already global after _group_sort_indexer (NumPy accepts a chunked index)")
+add("S2", "keep", CORE, "GroupBy.head", "        if self.key_is_chunked:\n            print('Unifying chunked group-key before finding head')\n            self._unify_group_key_chunks()\n", "        self._unify_group_key_chunks()\n", name="S2 unconditional unify in head")
+add("S2", "keep", CORE, "GroupBy.ema", "        if self.key_is_chunked:\n            self._unify_group_key_chunks()\n", "        self._unify_group_key_chunks(keep_chunked=False)\n", name="S2 unconditional unify in ema")
+INIT = "GroupBy.__init__"
+for attr, line in (("_key_index", "            self._key_index = group_keys._key_index\n"), ("_index_is_sorted", "            self._index_is_sorted = group_keys._index_is_sorted\n"),
+                   ("_group_key_pointers", "            self._group_key_pointers = group_keys._group_key_pointers\n"), ("_sort", "            self._sort = group_keys._sort\n")):
+    add("S3", "break", CORE, INIT, line, "", name=f"S3 copy constructor leaves {attr} unset")
+add("S3", "break", CORE, INIT, "        self._index_is_sorted = False\n", "", name="S3 _index_is_sorted only set on the chunked sorted path")
+add("S3", "break", CORE, INIT, "        self._group_key_pointers: List[np.ndarray] = None\n", "", name="S3 _group_key_pointers only set on the chunked path")
+add("S3", "break", CORE, INIT, "            self._sort = sort\n", "", name="S3 _sort unset for multi-key groupings")
+add("S3", "keep", CORE, INIT, "            self._group_ikey, self._result_index = (group_keys.group_ikey, group_keys.result_index)\n", "            self._group_ikey = group_keys.group_ikey\n            self._result_index = group_keys.result_index\n", name="S3 tuple assignment split")
+add("S4", "break", CORE, "GroupBy._apply_gb_reduction", "        sortkey = self._labels_argsort\n", "        sortkey = self._labels_argsort\n        self._sort = False\n", name="S4 a reduction clears _sort")
+add("S4", "break", CORE, "GroupBy.head", "        ilocs = numba_funcs._find_first_or_last_n(", "        self._index_is_sorted = True\n        ilocs = numba_funcs._find_first_or_last_n(", name="S4 head marks the index sorted")
+add("S4", "break", CORE, "GroupBy._get_row_selection", "        keep = ilocs > -1\n", "        keep = ilocs > -1\n        self._result_index = self._result_index[self._labels_argsort]\n", name="S4 row selection re-orders the labels in place")
+add("S4", "break", CORE, "GroupBy.groups", "        indexer = self._group_sort_indexer\n", "        indexer = self._group_sort_indexer\n        self._group_ikey = np.asarray(self._group_ikey)[indexer]\n", name="S4 groups replaces the codes by group-sorted codes")
+add("S4", "break", CORE, "GroupBy.count_ikey", "            count = np.zeros(self.ngroups, dtype=np.int64)\n", "            count = np.zeros(self.ngroups, dtype=np.int64)\n            self._group_key_pointers = None\n", name="S4 count_ikey drops the pointer tables without remapping")
+add("S4", "keep", CORE, "GroupBy._apply_gb_reduction", "        sortkey = self._labels_argsort\n", "        sortkey = self._labels_argsort\n        self._last_op = func_name\n", name="S4 unrelated bookkeeping attribute written")
+
+# --------------------------------------------------------------------------------------------- P1..P11
+RED = "GroupBy._apply_gb_reduction"
+add("P1", "break", NB, "_apply_cumulative", "    if orig_dtype.kind in 'mM':\n        result = result.astype(orig_dtype)\n", "    elif orig_dtype.kind in 'mM':\n        result = result.astype(orig_dtype)\n", name="P1 cumulative restore becomes the elif of the null-key post-fill")
+add("P1", "break", NB, "_apply_cumulative", "    if orig_dtype.kind in 'mM':\n        result = result.astype(orig_dtype)\n", "", name="P1 cumulative restore deleted")
+add("P1", "break", NB, "_group_func_wrap", "    if orig_type.kind in 'mM':\n        result = result.astype(orig_type)\n", "    if orig_type.kind in 'mM' and (not counting):\n        result = result.astype(orig_type)\n    if counting:\n        pass\n", name="P1 reduction restore under an extra test", accept_error=True)
+add("P1", "break", NB, "_group_func_wrap", "    if orig_type.kind in 'mM':\n        result = result.astype(orig_type)\n", "    if orig_type.kind == 'M':\n        result = result.astype(orig_type)\n", name="P1 timedeltas not restored")
+add("P1", "break", NB, "group_mean", "    if orig_type.kind in 'mM':\n        mean = mean.astype(orig_type)\n", "", name="P1 group_mean restore deleted")
+add("P1", "break", NB, "_apply_rolling", "        else:\n            result = result.view(orig_dtype)\n", "        else:\n            pass\n", name="P1 rolling restore deleted on the non-diff arm")
+add("P1", "break", NANOPS, "reduce_1d", "        output_converter = pd.to_timedelta\n", "        output_converter = np.asarray\n", name="P1 reduce_1d timedelta converter dropped")
+add("P1", "keep", NB, "_apply_cumulative", "result = result.astype(orig_dtype)", "result = result.view(orig_dtype)", name="P1 astype <-> view")
+add("P1", "keep", NB, "_group_func_wrap", "    if orig_type.kind in 'mM':\n        result = result.astype(orig_type)\n", "    is_temporal = orig_type.kind in 'mM'\n    if is_temporal:\n        result = result.astype(orig_type)\n", name="P1 temporal test through a local alias")
+add("P10", "break", NB, "_apply_rolling", "result = result.view(f'm8[{np.datetime_data(orig_dtype)[0]}]')", "result = result.view('m8[ns]')", name="P10 diff hard-codes nanoseconds")
+add("P10", "break", NB, "_apply_rolling", "            result = result.view(orig_dtype)\n", "            result = result.view('M8[ns]')\n", name="P10 restore hard-codes datetime64[ns]")
+add("P10", "keep", NB, "_apply_rolling", "result = result.view(f'm8[{np.datetime_data(orig_dtype)[0]}]')", "result = result.view(np.dtype(f'timedelta64[{np.datetime_data(orig_dtype)[0]}]'))", name="P10 unit taken from the original dtype, other spelling")
+add("P2", "break", CORE, RED, "            if func_is_mean:\n                count_df = self._add_margins(count_df, margins=margins, func_name='sum')\n", "", name="P2 count frame gets no margins")
+add("P2", "break", CORE, RED, "count_df = self._add_margins(count_df, margins=margins, func_name='sum')", "count_df = self._add_margins(count_df, margins=margins, func_name='count')", name="P2 count margins aggregated by count", accept_error=True)
+add("P2", "break", CORE, RED, "        if margins:\n            result_df = self._add_margins(result_df, margins=margins, func_name=effective_func_name)\n            if func_is_mean:\n                count_df = self._add_margins(count_df, margins=margins, func_name='sum')\n        if func_is_mean:\n            with np.errstate(invalid='ignore', divide='ignore'):\n                result_df = pd.DataFrame({k: mean_from_sum_count(result_df[k], count_df[k].reindex(result_df.index)) for k in result_df})\n",
+    "        if func_is_mean:\n            with np.errstate(invalid='ignore', divide='ignore'):\n                result_df = pd.DataFrame({k: mean_from_sum_count(result_df[k], count_df[k].reindex(result_df.index)) for k in result_df})\n        if margins:\n            result_df = self._add_margins(result_df, margins=margins, func_name=effective_func_name)\n",
+    name="P2 mean divided before the margins are added")
+add("P2", "break", CORE, RED, "            if func_is_mean:\n                with np.errstate(invalid='ignore', divide='ignore'):\n                    result_columns = [mean_from_sum_count(", "            if func_is_mean and False:\n                with np.errstate(invalid='ignore', divide='ignore'):\n                    result_columns = [mean_from_sum_count(", name="P2 transform path broadcasts sums for mean", accept_error=True)
+add("P3", "break", CORE, RED, "observed = self.ikey_count > 0", "observed = self.key_count > 0", name="P3 label-indexed Series used positionally")
+add("P3", "break", CORE, RED, "observed = self.count_ikey(mask=mask) > 0", "observed = self.ikey_count > 0", name="P3 masked recount ignores the mask", accept_error=True)
+add("P3", "break", CORE, RED, "                if mask is not None:\n                    observed = self.count_ikey(mask=mask) > 0\n                else:\n                    observed = self.ikey_count > 0\n", "                pass\n", name="P3 all-null groups dropped from the result")
+add("P4", "break", CORE, RED, "            result_df = result_df.iloc[sortkey]\n            count_df = count_df.iloc[sortkey]\n", "            count_df = count_df.iloc[sortkey]\n", name="P4 unfiltered arm forgets to sort the result frame")
+add("P4", "break", CORE, RED, "                observed = sortkey[observed[sortkey]]\n", "                observed = np.flatnonzero(observed)\n", name="P4 observed arm loses the sort permutation")
+add("P5", "break", CORE, RED, "result_columns = [result[self.group_ikey] for result in result_columns]", "result_columns = [result[self._labels_argsort][self.group_ikey] for result in result_columns]", name="P5 label-sorted results indexed by first-appearance codes")
+add("P6", "break", CORE, ACROSS, "ngroups=len(pointer) + 1 if pointer is not None else self.ngroups + 1", "ngroups=len(pointer) if pointer is not None else self.ngroups", name="P6 no null slot in the per-chunk targets")
+add("P6", "break", CORE, ACROSS, "len(self._result_index) + 1)", "len(self._result_index))", name="P6 no null slot in the merged target")
+add("P6", "break", CORE, "GroupBy._build_arg_dict_for_function", "ngroups=self.ngroups + 1", "ngroups=self.ngroups", name="P6 rolling/cumulative state without null slot", accept_error=True)
+add("P7", "break", CORE, "GroupBy._factorize_group_key_in_chunks", "        if self._sort:\n            self._result_index = self._result_index.sort_values()\n            self._index_is_sorted = True\n", "        self._index_is_sorted = True\n        if self._sort:\n            self._result_index = self._result_index.sort_values()\n", name="P7 index marked sorted without sorting")
+add("P7", "break", CORE, "GroupBy._factorize_group_key_in_chunks", "            unique_list = [mono_uniques, *unique_list]\n", "            unique_list = [*unique_list, mono_uniques]\n", name="P7 monotonic uniques appended at the other end")
+add("P7", "break", CORE, "GroupBy._factorize_group_key_in_chunks", "        arg_list = [(pd.Index(self.result_index), arr) for arr in unique_list]\n        self._group_key_pointers = parallel_map(get_indexer, arg_list)\n", "", also=((CORE, "GroupBy._factorize_group_key_in_chunks", "        if self._sort:\n", "        arg_list = [(pd.Index(self.result_index), arr) for arr in unique_list]\n        self._group_key_pointers = parallel_map(get_indexer, arg_list)\n        if self._sort:\n"),), name="P7 pointer tables computed before the labels are sorted")
+add("P8", "break", NB, "_apply_cumulative", "        result[np.asarray(group_key) < 0] = na_rep\n", "", name="P8 null-key rows keep the scratch value")
+add("P8", "break", NB, "_apply_cumulative", "        result[np.asarray(group_key) < 0] = na_rep\n", "        result[np.asarray(group_key) < 0] = result[0]\n", name="P8 null-key rows filled with a data value")
+add("P9", "break", CORE, INIT, "        self._result_index = self._result_index.set_names(group_key_names)", "        pass", name="P9 key names never assigned")
+add("P9", "break", CORE, INIT, "        self._result_index = self._result_index.set_names(group_key_names)", "        if len(group_key_list) > 1:\n            self._result_index = self._result_index.set_names(group_key_names)", name="P9 key names only for multi-key groupings")
+add("P11", "break", CORE, RED, "            if common_index is not None:\n                result_index = common_index\n            else:\n                result_index = pd.RangeIndex(len(self))\n", "            result_index = pd.RangeIndex(len(self))\n", name="P11 transform drops the inputs' index")
+add("P11", "break", CORE, RED, "            if common_index is not None:\n                result_index = common_index\n            else:\n                result_index = pd.RangeIndex(len(self))\n", "            result_index = self.result_index\n", name="P11 transform labelled by the group index", accept_error=True)
+add("P1", "keep", NB, "_group_func_wrap", "orig_type", "source_dtype", count=0, name="P1 original-dtype variable renamed")
+add("P1", "keep", NB, "_apply_cumulative", "orig_dtype", "dt0", count=0, name="P1 original-dtype variable renamed (cumulative)")
